@@ -26,6 +26,9 @@ def out(*a, **k):
 def run_property(prop, tier, seed, root=None, overlay=None, only=None, quiet=False, write=True):
     """Run all rules of a property.  Returns (exit code, Check)."""
     t0 = time.time()
+    from . import paths as _paths
+
+    _paths._T0 = t0  # the wall-clock budget of the fixpoints (paths.BUDGET_SECONDS) is per property run
     prog = model.Program(root=root, overlay=overlay)
     mod = importlib.import_module("pmcsa.rules_%s" % prop)
     chk = report.Check(prop, prog, tier=tier, seed=seed)
